@@ -73,6 +73,23 @@ def nvra_history(sym, second_rpm, edit):
                                                                        first["arch"] == a[3], first["epoch"] == 0))
 
 
+def big_epoch(sym, digits):
+    """any non-negative integer is an epoch: also one far beyond 32 bits (e.g. a timestamp used as epoch)"""
+    epoch = sym.int("epoch", 10 ** (digits - 1), 10 ** digits - 1)
+    name = sym.str("name", 2, minlen=1, alphabet=["a-z"])
+    version = sym.str("version", 2, minlen=1, alphabet=["0-9", "."])
+    release = sym.str("release", 2, minlen=1, alphabet=["0-9", "a-z"])
+    text = name + "-" + str(epoch) + ":" + version + "-" + release + ".x86_64"
+    sym.cover("built")
+    res = parse_nvra(text)
+    sym.cover("parsed")
+    sym.check("name", res["name"] == name)
+    sym.check("epoch", res["epoch"] == epoch)
+    sym.check("version", res["version"] == version)
+    sym.check("release", res["release"] == release)
+    sym.check("arch", res["arch"] == "x86_64")
+
+
 def check_nevra_canonical(sym, with_dir, with_rpm, n_name, n_ver, n_rel, n_dir):
     """Rpms._check_nevra re-formats the parsed parts canonically: name-epoch:version-release.arch.
     With with_dir = with_rpm = False the input is itself canonical, i.e. this is the fixed point claim."""
@@ -106,6 +123,8 @@ def jobs(tier, seed):
     for with_dir, with_epoch, with_rpm in ((False, False, False), (False, True, True), (True, False, True), (True, True, False)):
         out.append({"harness": "nvra_roundtrip",
                     "params": {"with_dir": with_dir, "with_epoch": with_epoch, "with_rpm": with_rpm, "n_name": 3, "n_ver": 2, "n_rel": 2, "n_dir": 2}})
+    for digits in ((11, 14, 19, 25) if big else (11, 19)):
+        out.append({"harness": "big_epoch", "params": {"digits": digits}})
     for second_rpm in (False, True):
         for edit in (True, False):
             out.append({"harness": "nvra_history", "params": {"second_rpm": second_rpm, "edit": edit}})
@@ -125,11 +144,12 @@ def jobs(tier, seed):
 
 
 META = {
-    "expected_covers": {"nvra_history": ["built", "parsed"], "nvra_roundtrip": ["built", "parsed"], "check_nevra_canonical": ["built", "checked"]},
+    "expected_covers": {"big_epoch": ["built", "parsed"], "nvra_history": ["built", "parsed"], "nvra_roundtrip": ["built", "parsed"], "check_nevra_canonical": ["built", "checked"]},
     "assumptions": [
         "names over [A-Za-z0-9._+-] made of non-empty dash-separated segments, versions and releases over [A-Za-z0-9._+~^] (non-empty, no dash), arch any entry of the real "
         "RPM_ARCHES table, epoch absent or 0..10^9, optional directory prefix over the name alphabet plus '/', optional '.rpm' suffix",
         "length bounds per job: quick name<=7, version/release<=4, directory<=3 (plus four jobs at 3/2/2/2); thorough 12/8/8/8; longer parts are outside the claim",
+        "big_epoch: epochs of exactly 11 and 19 (thorough also 14 and 25) decimal digits with parts of 1-2 characters",
         "call histories (nvra_history): two parses in one process, parts of 1-2 characters, the caller edits the first result in between",
         "Rpms._check_nevra: canonical re-formatting of the same parts (epoch always present)",
     ],
